@@ -264,7 +264,14 @@ _POW_RAISES = {'ValueError': ('only_if', 'ival(exponent) < 0 or (modulus is not 
 _POW_KNOWN = {'ValueError': ['not (modulus is None and ival(exponent) > 256)']}       # F4: exact_large_exponent
 _SHIFT_RAISES = {'ValueError': ('iff', 'ival(pos) < 0 or ival(pos) >= 65536')}
 _SHIFT_KNOWN = {'ValueError': ['ival(pos) < 65536']}                                     # F6: exact_large_shift
+# F7 (repaired by 9f7facf9): for counts above 0xFFFFFFFF the GMP wrappers answer 0 / -1 / False without calling GMP.  That is
+# exact for every value of fewer than 2**32 bits -- the domain of the GMP back end (a longer number cannot be held).  The
+# domain is stated relative to the count (what the shortcut needs; implied by "fewer than 2**32 bits"): the result clause
+# itself is the shared one, unweakened.
+_HOLDABLE = 'ival({0}) <= 0xFFFFFFFF or (-pow2(ival({0})) <= ival(self) and ival(self) < pow2(ival({0})))'
 GMP_HELP = {
+    '__rshift__': {'requires': [_HOLDABLE.format('pos')]}, '__irshift__': {'requires': [_HOLDABLE.format('pos')]},
+    'get_bit': {'requires': [_HOLDABLE.format('n')]},
     'inplace_pow': {'raises': _POW_RAISES, 'on_raise': _POW_KNOWN},
     '__pow__': {'raises': _POW_RAISES, 'on_raise': _POW_KNOWN},
     '__lshift__': {'raises': _SHIFT_RAISES, 'on_raise': _SHIFT_KNOWN},
